@@ -438,6 +438,34 @@ def double_subst(ex, alpha):
                         yield e1[:j] + b + e1[j + 1:]
 
 
+def adjacent_double_subst(ex, alpha):
+    """every pair of ADJACENT positions (so also the first two and the last two) replaced by every
+    two-character string over alpha."""
+    n = len(ex)
+    for i in range(n - 1):
+        for a in alpha:
+            for b in alpha:
+                if a != ex[i] or b != ex[i + 1]:
+                    yield ex[:i] + a + b + ex[i + 2:]
+
+
+AFFIX_ALPHA = ["w", "W", "0", "1", "5", "6", " ", "d"]
+
+
+def affixes(ex, alpha, maxlen):
+    """ex followed by / preceded by every 1..maxlen character string over alpha; and the same in place of
+    the last / first k characters."""
+    tails = [t for t in short_strings(alpha, maxlen) if t]
+    for t in tails:
+        yield ex + t
+    for t in tails:
+        yield t + ex
+    for t in tails:
+        if len(t) < len(ex):
+            yield ex[:-len(t)] + t
+            yield t + ex[len(t):]
+
+
 def number_variants(quick):
     ints = list(range(0, 41)) + [59, 60, 99, 100, 127, 128, 255, 256, 999, 1000, 32767, 65535,
                                  2 ** 31 - 1, 2 ** 31, 2 ** 63, 10 ** 20]
@@ -636,6 +664,11 @@ def gen_for_type(dtype, quick):
             yield ex
         for ex in exs:
             yield from single_edits(ex, TEMP_ALPHA + ["3", "5", "6"])
+        full = TEMP_ALPHA + ["3", "5", "6"]
+        for ex in exs:
+            yield from affixes(ex, AFFIX_ALPHA, 3)
+        for ex in exs:
+            yield from adjacent_double_subst(ex, full)
         if dtype == "UTCTIMESTAMP":
             yield from ts_calendar(quick)
         elif dtype == "UTCTIMEONLY":
@@ -877,7 +910,9 @@ def run(ctx):
     ctx.rule = ("for every datatype of each dictionary one real non-enumerated field (seed rotates which; EndSeqNo "
                 "extra; a synthetic field only where every field of the type is enumerated): all strings of length "
                 f"<= {n + 1} (number, text, code types) / <= {n} (temporal types) over a 13-14 character type-specific alphabet, single edits (thorough: double substitutions) "
-                "of fixed-layout exemplars, calendar products, number/text boundary lists; every enumerated field: all "
+                "of fixed-layout exemplars, all 2-character substitutions of every adjacent position pair (17-character alphabet) "
+                "and all 1-3 character prefixes/suffixes/end replacements over {w,W,0,1,5,6,blank,d} of each exemplar, "
+                "calendar products, number/text boundary lists; every enumerated field: all "
                 "enumerators, all printable 1-char strings (thorough: 2-char) and derived near-misses; every other "
                 "field of both dictionaries: a 47-string probe list. Each input = one real validate_value call judged "
                 "by R9. non-trivial = input on which R9 decides (member or non-member), i.e. not 'unspecified'")
